@@ -1,6 +1,7 @@
 package main
 
 import (
+	"time"
 	"os"
 	"fmt"
 	"go/constant"
@@ -51,6 +52,7 @@ func (f *Frame) clone() *Frame {
 }
 
 type State struct {
+	eng     *Engine
 	heap    map[int]Value
 	allocLog []int
 	sig      string
@@ -62,10 +64,20 @@ type State struct {
 	why     string
 	written map[int]bool // objects stored to (for purity tracking)
 	lastRet Value
+	ovf     []*Term          // pending no-overflow obligations (integer mode), each a Bool "result in int64 range"
+	sigs    map[string]*Term // known-finding signatures registered by the harness on this path
+	obs     []obsEntry       // observed values (translator validation)
+	tasks   []*task          // fork-join idiom: goroutines spawned and not yet run
+	chans   map[int]*chanObj
+}
+
+type obsEntry struct {
+	Tag string
+	V   Value
 }
 
 func (s *State) clone() *State {
-	n := &State{dead: s.dead, why: s.why, lastRet: s.lastRet, curKey: s.curKey, subAlloc: s.subAlloc}
+	n := &State{eng: s.eng, dead: s.dead, why: s.why, lastRet: s.lastRet, curKey: s.curKey, subAlloc: s.subAlloc}
 	n.allocLog = append([]int(nil), s.allocLog...)
 	n.heap = make(map[int]Value, len(s.heap))
 	for k, v := range s.heap {
@@ -76,19 +88,32 @@ func (s *State) clone() *State {
 		n.frames[i] = f.clone()
 	}
 	n.pc = append([]*Term(nil), s.pc...)
+	n.ovf = append([]*Term(nil), s.ovf...)
+	n.obs = append([]obsEntry(nil), s.obs...)
+	if s.sigs != nil {
+		n.sigs = make(map[string]*Term, len(s.sigs))
+		for k, v := range s.sigs {
+			n.sigs[k] = v
+		}
+	}
+	n.tasks = append([]*task(nil), s.tasks...)
+	if s.chans != nil {
+		n.chans = make(map[int]*chanObj, len(s.chans))
+		for k, v := range s.chans {
+			n.chans[k] = v
+		}
+	}
 	return n
 }
 
 func (s *State) top() *Frame { return s.frames[len(s.frames)-1] }
 
-var allocNames = map[string]int{}
-
-func canonID(key string) int {
-	if id, ok := allocNames[key]; ok {
+func (e *Engine) canonID(key string) int {
+	if id, ok := e.allocNames[key]; ok {
 		return id
 	}
-	id := len(allocNames) + 1
-	allocNames[key] = id
+	id := len(e.allocNames) + 1
+	e.allocNames[key] = id
 	return id
 }
 
@@ -96,10 +121,11 @@ func canonID(key string) int {
 // so that two paths that allocate "the same" object agree on its identity and can be merged.
 func (s *State) alloc(v Value) int {
 	s.subAlloc++
-	id := canonID(fmt.Sprintf("obj|%s|%d", s.curKey, s.subAlloc))
+	e := s.eng
+	id := e.canonID(fmt.Sprintf("obj|%s|%d", s.curKey, s.subAlloc))
 	if _, exists := s.heap[id]; exists {
 		// same site reached twice on one path without a distinguishing visit count: fall back to a unique name
-		id = canonID(fmt.Sprintf("obj|%s|%d|dup%d", s.curKey, s.subAlloc, len(s.allocLog)))
+		id = e.canonID(fmt.Sprintf("obj|%s|%d|dup%d", s.curKey, s.subAlloc, len(s.allocLog)))
 	}
 	s.heap[id] = v
 	s.allocLog = append(s.allocLog, id)
@@ -107,10 +133,26 @@ func (s *State) alloc(v Value) int {
 }
 
 type Failure struct {
-	Kind  string // assert | panic | unwind | unsupported
-	Msg   string
-	Where string
+	Kind   string // assert | panic | unwind | unsupported | unknown | overflow
+	Msg    string
+	Where  string
+	Model  map[string]uint64
+	UF     []UFApp  `json:",omitempty"` // values of uninterpreted applications in the model
+	Known  string   `json:",omitempty"` // name of the known-finding signature this model falls under ("" = none)
+	Stack  []string `json:",omitempty"`
+}
+
+type UFApp struct {
+	Fn   string
+	Args []uint64
+	Val  uint64
+}
+
+type Witness struct {
+	Label string
 	Model map[string]uint64
+	UF    []UFApp `json:",omitempty"`
+	Obs   map[string]uint64
 }
 
 type Engine struct {
@@ -142,12 +184,28 @@ type Engine struct {
 	internedRev []string
 	ufSeq       int
 	cuts        map[string]*ssa.Function
+	allocNames  map[string]int
+	rpoCache    map[*ssa.Function]map[*ssa.BasicBlock]int
+	joinFailWhy map[string]int
+	Params      map[string]int64
+	KnownOpen   map[string]bool // names of signatures that are listed, open known findings
+	MapOrders   string          // "insertion" | "all" (every order for <= 3 entries, insertion+reverse beyond)
+	Witnesses   []Witness
+	ufApps      map[string]*Term // every uninterpreted application built, by its printed form
+	OvfChecks   int
+	Trivial     int
+	Discharged  int
+	Samples     []string
+	NoValidate  bool
+	callDepth   int
+	Deadline    time.Time
 }
 
 type intrinsic func(e *Engine, st *State, call *ssa.CallCommon, args []Value) Value
 
 func NewEngine(l *Loaded, s *Solver) *Engine {
-	e := &Engine{L: l, S: s, Unwind: 12, globals: map[*ssa.Global]int{}, nondet: map[string]*Term{}, Reached: map[string]bool{}, FnSeen: map[string]int{}, Stubs: map[string]int{}, MaxPaths: 200000}
+	e := &Engine{L: l, S: s, Unwind: 12, globals: map[*ssa.Global]int{}, nondet: map[string]*Term{}, Reached: map[string]bool{}, FnSeen: map[string]int{}, Stubs: map[string]int{}, MaxPaths: 200000,
+		allocNames: map[string]int{}, rpoCache: map[*ssa.Function]map[*ssa.BasicBlock]int{}, joinFailWhy: map[string]int{}, Params: map[string]int64{}, KnownOpen: map[string]bool{}, MapOrders: "insertion", ufApps: map[string]*Term{}}
 	e.intr = map[string]intrinsic{}
 	registerIntrinsics(e)
 	return e
@@ -183,7 +241,7 @@ func sanitize(s string) string {
 // ---------- running ----------
 
 func (e *Engine) RunHarness(fn *ssa.Function) {
-	st := &State{heap: map[int]Value{}}
+	st := &State{eng: e, heap: map[int]Value{}}
 	// run the package initialisers of pint packages first (package-level vars)
 	if initFn := fn.Pkg.Func("init"); initFn != nil {
 		e.InitMode = true
@@ -203,7 +261,53 @@ func (e *Engine) RunHarness(fn *ssa.Function) {
 	fr := &Frame{fn: fn, block: fn.Blocks[0], regs: map[ssa.Value]Value{}, visits: map[int]int{}}
 	st.frames = []*Frame{fr}
 	done := e.explore(st, 0)
+	for _, d := range done {
+		e.checkOverflow(d, "end of path")
+	}
 	e.Paths += len(done)
+}
+
+// arith builds an integer add/sub/mul/neg and, in integer mode, records the obligation that the 64-bit result
+// does not overflow (so that mathematical and wrap-around arithmetic coincide on every explored path).
+func (e *Engine) arith(st *State, op string, x, y *Term) *Term {
+	var r *Term
+	if op == "bvneg" {
+		r = BVNeg(x)
+	} else {
+		r = BVBin(op, x, y)
+	}
+	if IntMode && r.Sort.Kind == 'V' && r.Sort.Width == 64 && !r.IsConst() && st != nil {
+		st.ovf = append(st.ovf, inRange64(r))
+	}
+	return r
+}
+
+func inRange64(r *Term) *Term {
+	return And(BVCmp("bvsge", r, ConstBV(1<<63, 64)), BVCmp("bvsle", r, ConstBV(1<<63-1, 64)))
+}
+
+// checkOverflow discharges the pending no-overflow obligations of st under its current path condition.
+func (e *Engine) checkOverflow(st *State, where string) {
+	if len(st.ovf) == 0 || st.dead {
+		return
+	}
+	e.OvfChecks++
+	bad := Not(And(st.ovf...))
+	st.ovf = nil
+	if bad.IsFalse() {
+		return
+	}
+	switch e.S.Check(st.pc, bad) {
+	case Sat:
+		m, uf := e.modelNow()
+		e.S.EndModel()
+		e.Failures = append(e.Failures, Failure{Kind: "overflow", Msg: "64-bit arithmetic may overflow (" + where + "): integer-mode verdicts on this path are not trusted", Model: m, UF: uf})
+	case Unknown:
+		e.S.EndModel()
+		e.Failures = append(e.Failures, Failure{Kind: "unknown", Msg: "no-overflow obligation undecided (" + where + ")"})
+	default:
+		e.S.EndModel()
+	}
 }
 
 func (e *Engine) fail(st *State, kind, msg string) {
@@ -228,10 +332,28 @@ func (e *Engine) fail(st *State, kind, msg string) {
 		}
 	}
 	var model map[string]uint64
+	var uf []UFApp
 	if len(st.pc) > 0 {
-		model = e.modelNow()
+		model, uf = e.modelNow()
 	}
-	e.Failures = append(e.Failures, Failure{Kind: kind, Msg: msg, Where: where, Model: model})
+	var stack []string
+	for _, f := range st.frames {
+		stack = append(stack, f.fn.String())
+	}
+	known := ""
+	if kind == "panic" && len(st.pc) > 0 {
+		known = e.classifyKnown(st, nil)
+		if known != "" {
+			// is there a model of this failure outside every open known-finding signature?
+			e.S.EndModel()
+			blk := e.knownBlock(st)
+			if e.S.Check(st.pc, blk) == Sat {
+				m2, uf2 := e.modelNow()
+				e.Failures = append(e.Failures, Failure{Kind: kind, Msg: msg, Where: where, Model: m2, UF: uf2, Stack: stack})
+			}
+		}
+	}
+	e.Failures = append(e.Failures, Failure{Kind: kind, Msg: msg, Where: where, Model: model, UF: uf, Known: known, Stack: stack})
 	st.dead = true
 	st.why = kind + ": " + msg
 }
@@ -243,7 +365,7 @@ func (e *Engine) explore(start *State, baseDepth int) (done []*State) {
 	work := []*State{start}
 	key := func(s *State) (int, int) {
 		fr := s.top()
-		return rpoIndex(fr.block), fr.ip
+		return e.rpoIndex(fr.block), fr.ip
 	}
 	for len(work) > 0 {
 		// pick the earliest state in reverse post-order
@@ -453,6 +575,9 @@ func (e *Engine) step(st *State) (forks []*State) {
 	st.curKey = fmt.Sprintf("%d|%p|%d", fr.act, instr, fr.visits[fr.block.Index])
 	st.subAlloc = 0
 	e.Instrs++
+	if e.Instrs%2000 == 0 && !e.Deadline.IsZero() && time.Now().After(e.Deadline) {
+		panic(jobTimeout{})
+	}
 	if e.Instrs%100000 == 0 && os.Getenv("VERIF_PROGRESS") != "" {
 		fmt.Fprintf(os.Stderr, "progress: %d instrs, in %s block %d, depth %d, queries %d, joinmerges %d fails %d\n", e.Instrs, fr.fn.Name(), fr.block.Index, len(st.frames), e.S.Queries, e.JoinMerges, e.JoinMergeFails)
 	}
@@ -731,7 +856,7 @@ func (e *Engine) unop(st *State, in *ssa.UnOp, x Value) Value {
 		if f, ok := x.(FloatVal); ok {
 			return FloatVal{F: -f.F}
 		}
-		return BVNeg(asTerm(x))
+		return e.arith(st, "bvneg", asTerm(x), nil)
 	case token.XOR:
 		return BVNot(asTerm(x))
 	}
@@ -877,11 +1002,11 @@ func (e *Engine) binop(st *State, op token.Token, a, b Value, typ types.Type) Va
 	_, signed, _ := intWidth(typ)
 	switch op {
 	case token.ADD:
-		return BVBin("bvadd", x, y)
+		return e.arith(st, "bvadd", x, y)
 	case token.SUB:
-		return BVBin("bvsub", x, y)
+		return e.arith(st, "bvsub", x, y)
 	case token.MUL:
-		return BVBin("bvmul", x, y)
+		return e.arith(st, "bvmul", x, y)
 	case token.QUO, token.REM:
 		if y.IsConst() && y.Val == 0 {
 			e.fail(st, "panic", "integer divide by zero")
@@ -1049,29 +1174,14 @@ func (e *Engine) indexAddr(st *State, fr *Frame, in *ssa.IndexAddr) []*State {
 	// symbolic index: bounds obligation, then fork over feasible concrete indices
 	oob := Or(BVCmp("bvslt", idx, ConstBV(0, 64)), BVCmp("bvsge", idx, ConstBV(uint64(n), 64)))
 	if e.S.Check(st.pc, oob) != Unsat {
-		m := e.modelNow()
+		m, uf := e.modelNow()
 		e.S.EndModel()
-		e.Failures = append(e.Failures, Failure{Kind: "panic", Msg: fmt.Sprintf("index out of range (symbolic) length %d", n), Where: fr.fn.String(), Model: m})
+		e.Failures = append(e.Failures, Failure{Kind: "panic", Msg: fmt.Sprintf("index out of range (symbolic) length %d", n), Where: fr.fn.String(), Model: m, UF: uf})
+		st.pc = append(st.pc, Not(oob))
 	} else {
 		e.S.EndModel()
 	}
 	var forks []*State
-	first := true
-	for i := 0; i < n; i++ {
-		c := Eq(idx, ConstBV(uint64(i), 64))
-		if e.S.Check(st.pc, c) == Unsat {
-			e.S.EndModel()
-			continue
-		}
-		e.S.EndModel()
-		tgt := st
-		if !first {
-			tgt = st.clone()
-		}
-		// note: clones must be made before st is mutated; do cloning lazily below
-		_ = tgt
-		first = false
-	}
 	// simple implementation: clone for each feasible index
 	var feas []int
 	for i := 0; i < n; i++ {
@@ -1128,9 +1238,9 @@ func (e *Engine) index(st *State, fr *Frame, in *ssa.Index) []*State {
 	// symbolic index into scalars: ite chain
 	oob := Or(BVCmp("bvslt", idx, ConstBV(0, 64)), BVCmp("bvsge", idx, ConstBV(uint64(len(elems)), 64)))
 	if e.S.Check(st.pc, oob) != Unsat {
-		m := e.modelNow()
+		m, uf := e.modelNow()
 		e.S.EndModel()
-		e.Failures = append(e.Failures, Failure{Kind: "panic", Msg: "index out of range (symbolic)", Where: fr.fn.String(), Model: m})
+		e.Failures = append(e.Failures, Failure{Kind: "panic", Msg: "index out of range (symbolic)", Where: fr.fn.String(), Model: m, UF: uf})
 	} else {
 		e.S.EndModel()
 	}
@@ -1364,6 +1474,50 @@ func (e *Engine) rangeOp(st *State, fr *Frame, in *ssa.Range) Value {
 	return nil
 }
 
-func (e *Engine) modelNow() map[string]uint64 {
-	return e.S.Values(e.nondet)
+func (e *Engine) modelNow() (map[string]uint64, []UFApp) {
+	m := e.S.Values(e.nondet)
+	if len(e.ufApps) == 0 {
+		return m, nil
+	}
+	ask := map[string]*Term{}
+	apps := map[string]*Term{}
+	for k, t := range e.ufApps {
+		declared := true
+		for v := range t.Vars() {
+			if _, ok := e.S.declared[v]; !ok {
+				declared = false
+				break
+			}
+		}
+		if !declared {
+			continue
+		}
+		apps[k] = t
+		ask[k] = t
+		for i, a := range t.Args {
+			ask[fmt.Sprintf("%s#%d", k, i)] = a
+		}
+	}
+	vals := e.S.Values(ask)
+	keys := make([]string, 0, len(apps))
+	for k := range apps {
+		keys = append(keys, k)
+	}
+	sort.Strings(keys)
+	var out []UFApp
+	seen := map[string]bool{}
+	for _, k := range keys {
+		t := apps[k]
+		app := UFApp{Fn: strings.TrimPrefix(t.Op, "uf:"), Val: vals[k]}
+		for i := range t.Args {
+			app.Args = append(app.Args, vals[fmt.Sprintf("%s#%d", k, i)])
+		}
+		sig := fmt.Sprint(app.Fn, app.Args)
+		if seen[sig] {
+			continue
+		}
+		seen[sig] = true
+		out = append(out, app)
+	}
+	return m, out
 }
